@@ -21,8 +21,13 @@ def ctor(name, *args):
     return call(N(CORE + name), *args)
 
 
+NEG = {"!=": "==", "not in": "in", "is not": "is"}
+
+
 def bool_atoms(t, acc):
     h = t[0]
+    if h == "cmp" and t[1] in NEG:
+        return bool_atoms(("cmp", NEG[t[1]], t[2], t[3]), acc)
     if h == "boolop":
         for x in t[2]:
             bool_atoms(x, acc)
@@ -41,6 +46,9 @@ def bool_atoms(t, acc):
 
 def bool_eval(t, asg):
     h = t[0]
+    if h == "cmp" and t[1] in NEG:
+        r = bool_eval(("cmp", NEG[t[1]], t[2], t[3]), asg)
+        return None if r is None else (not r)
     if h == "const":
         return bool(t[1])
     if h == "boolop":
@@ -511,6 +519,12 @@ def fn_merge_precedence(ctx, rule="ROLE-merge-precedence"):
         ctx.ok(rule, construct, "x_ wins conflicts, x discarded, one-sided keys copied, union of keys")
 
 
-RULES = [selection_algebra, sel_constructor, leaf_consumers, fn_filter_partition, fn_filter_leaf_agreement, fn_merge_precedence,
+def tables_(ctx):
+    from . import tables
+    tables.fn_merge_table(ctx)
+    tables.fn_filter_table(ctx)
+
+
+RULES = [selection_algebra, sel_constructor, leaf_consumers, tables_,
          gfi.merge_polarity, gfi.dist_regenerate]
 FLOOR = 20
